@@ -11,6 +11,8 @@ From CL Require Import Base.Sx Base.Res Base.Str Regex.Rx Model.AddRemove Model.
                        Proofs.C02Blocks Proofs.C02BlocksJunkRx Proofs.C02BlocksJunk
                        Proofs.PropsValTotal Proofs.LintE2E Proofs.LintPropsE2E
                        Proofs.C02BlocksIni Proofs.C02BlocksIniJunk Proofs.LintIniE2E.
+From CL Require Proofs.C02BlocksDtd Proofs.C02BlocksDtdJunk.
+From CL Require Import Proofs.LintDtdE2E.
 Import ListNotations.
 Open Scope Z_scope.
 
@@ -336,6 +338,73 @@ Example C19_example_end_to_end_ini :
       mkFinding 5 1 LError (MDuplicate [107%N]);
       mkFinding 5 1 LWarning (MChanged [107%N]);
       mkFinding 6 1 LWarning (MChanged [109%N])].
+Proof.
+  split; [repeat constructor|]. split; [vm_compute; reflexivity|].
+  split; [repeat constructor|].
+  split; [repeat constructor|]. split; [vm_compute; reflexivity|].
+  split; vm_compute; reflexivity.
+Qed.
+
+(* ---- .dtd end to end ---------------------------------------------------------------------
+   On the block lists of Proofs/C02BlocksDtdJunk.v: entity declarations
+   <!ENTITY name "value"> with an attached comment, parameter-entity declarations (entities
+   too: their value is the quoted text with its quotes), standalone comments, white-space,
+   garbage regions; [mark]: the file starts with a byte order mark (text no entry covers; a
+   file that is only the mark is one empty Junk at offset 1).  The entity class is DTDEntity:
+   its value_position is DTDEntityMixin.value_position; .val is html.unescape(raw_val), a
+   library function and here the parameter [unesc].  Positions are those of the start of the
+   declaration (after its attached comment).  [dexpected] is [expected] of Proofs/LintE2E.v
+   on the blocks seen as items ([ditems]). *)
+Theorem C19_end_to_end_dtd :
+  forall (unesc : str -> str) (Msg : Type) (chk : option (@checker str Msg))
+         (mark : bool) (all : list C02BlocksDtdJunk.jblock)
+         (rref : option (bool * list C02BlocksDtdJunk.jblock)) (j0 : nat),
+  Forall C02BlocksDtdJunk.legal_jblock all -> C02BlocksDtdJunk.jadjacent_ok_bom mark all ->
+  Forall dblock_key_ok all ->
+  match rref with
+  | Some (rm, rbs) => Forall C02BlocksDtdJunk.legal_jblock rbs /\ C02BlocksDtdJunk.jadjacent_ok_bom rm rbs
+  | None => True
+  end ->
+  (forall e, match chk with Some c => c e e | None => [] end = []) ->
+  lint_dtd unesc j0 chk (C02BlocksDtdJunk.jfile_text_bom mark all)
+           (option_map (fun r => C02BlocksDtdJunk.jfile_text_bom (fst r) (snd r)) rref) =
+  Ok (dexpected unesc mark all rref).
+Proof. intros unesc Msg chk mark all rref j0. exact (e2e_dtd_silent unesc chk mark all rref j0). Qed.
+
+Theorem C19_end_to_end_dtd_checks :
+  forall (unesc : str -> str) (Msg : Type) (chk : option (@checker str Msg))
+         (mark : bool) (all : list C02BlocksDtdJunk.jblock)
+         (rref : option (bool * list C02BlocksDtdJunk.jblock)) (j0 : nat),
+  Forall C02BlocksDtdJunk.legal_jblock all -> C02BlocksDtdJunk.jadjacent_ok_bom mark all ->
+  Forall dblock_key_ok all ->
+  match rref with
+  | Some (rm, rbs) => Forall C02BlocksDtdJunk.legal_jblock rbs /\ C02BlocksDtdJunk.jadjacent_ok_bom rm rbs
+  | None => True
+  end ->
+  forall fs, lint_dtd unesc j0 chk (C02BlocksDtdJunk.jfile_text_bom mark all)
+               (option_map (fun r => C02BlocksDtdJunk.jfile_text_bom (fst r) (snd r)) rref) = Ok fs ->
+  filter (fun f => negb (is_check f)) fs = dexpected unesc mark all rref.
+Proof. intros unesc Msg chk mark all rref j0. exact (e2e_dtd unesc chk mark all rref j0). Qed.
+
+(* <BOM><!ENTITY a "b"> / zz <!ENTITY a "c"> / <!ENTITY m "1">  against
+   <!ENTITY a "b"> / <!ENTITY m "2">  (unescape: identity): the mark shifts the column on line 1 *)
+Example C19_example_end_to_end_dtd :
+  Forall C02BlocksDtdJunk.legal_jblock de2e_file /\ C02BlocksDtdJunk.jadjacent_ok_bom true de2e_file /\
+  Forall dblock_key_ok de2e_file /\
+  Forall C02BlocksDtdJunk.legal_jblock de2e_ref /\ C02BlocksDtdJunk.jadjacent_ok_bom false de2e_ref /\
+  @lint_dtd nat (fun x => x) 0 None (C02BlocksDtdJunk.jfile_text_bom true de2e_file)
+            (Some (C02BlocksDtdJunk.jfile_text_bom false de2e_ref)) =
+  Ok [mkFinding 1 2 LError (MDuplicate [97%N]);
+      mkFinding 2 1 LError (MJunk 17 (2, 1) (2, 4));
+      mkFinding 2 4 LError (MDuplicate [97%N]);
+      mkFinding 2 4 LWarning (MChanged [97%N]);
+      mkFinding 3 1 LWarning (MChanged [109%N])] /\
+  @dexpected (fun x => x) nat true de2e_file (Some (false, de2e_ref)) =
+     [mkFinding 1 2 LError (MDuplicate [97%N]);
+      mkFinding 2 1 LError (MJunk 17 (2, 1) (2, 4));
+      mkFinding 2 4 LError (MDuplicate [97%N]);
+      mkFinding 2 4 LWarning (MChanged [97%N]);
+      mkFinding 3 1 LWarning (MChanged [109%N])].
 Proof.
   split; [repeat constructor|]. split; [vm_compute; reflexivity|].
   split; [repeat constructor|].
